@@ -13,7 +13,7 @@ lossless FIFO connection — a trace monitor over what the two applications obse
   accepted byte has been delivered;
 * `data_after_eof` — nothing follows end-of-stream;
 * `phantom_stream` — an accepted inbound substream is one the other side opened, handed out once;
-* `incomplete_delivery` — at the end of a session in which every writer flushed and half-closed
+* `unannounced_empty_stream` / `incomplete_delivery` — at the end of a session in which every writer flushed and half-closed
   and every reader read until nothing more came, every substream direction has delivered
   everything followed by end-of-stream.
 -/
@@ -96,7 +96,13 @@ def specStep (t : SpecSt) (ev : Ev) : SpecSt × String :=
     let t' := { t with dirs := putDir t.dirs { d with eof := true } }
     if d.closed && d.got == d.sent then (t', "ok") else (t', "early_eof")
   | .finish =>
-    (t, if t.dirs.all (fun d => !d.closed || (d.eof && d.got == d.sent)) then "ok" else "incomplete_delivery")
+    let bad := t.dirs.filter (fun d => d.closed && !(d.eof && d.got == d.sent))
+    if bad.isEmpty then (t, "ok")
+    -- stable key for one known input class (external yamux crate): a substream half-closed before a
+    -- single byte was written on it, which the other side was never told about
+    else if bad.all (fun d => d.sent.isEmpty && d.writer == d.name.opener && !t.accepted.contains d.name) then
+      (t, "unannounced_empty_stream")
+    else (t, "incomplete_delivery")
 
 /-- the monitor's safety invariant: everything read so far is a prefix of what was accepted -/
 def Good (t : SpecSt) : Prop := ∀ d ∈ t.dirs, isPrefix d.got d.sent = true
